@@ -217,6 +217,9 @@ void NiGeometryData::Create(NiVersion&,
 
 	bounds = BoundingSphere(vertices);
 
+	// Vertex colors can't be passed in, drop colors of a previous vertex set
+	SetVertexColors(false);
+
 	if (uvs) {
 		size_t uvCount = uvs->size();
 		if (uvCount == numVertices) {
@@ -1255,7 +1258,22 @@ void BSSubIndexTriShape::notifyVerticesDelete(const std::vector<uint16_t>& vertI
 
 	//Remove triangles from segments and re-fit lists
 	segmentation.numPrimitives -= static_cast<uint32_t>(deletedTris.size());
+
+	// Primitives of each segment that precede its first sub segment (they belong to the segment itself)
+	std::vector<uint32_t> leadingPrimitives(segmentation.segments.size(), 0);
+	size_t segIndex = 0;
+
 	for (auto& segment : segmentation.segments) {
+		if (!segment.subSegments.empty() && segment.subSegments[0].startIndex > segment.startIndex) {
+			uint32_t leading = (segment.subSegments[0].startIndex - segment.startIndex) / 3;
+			leadingPrimitives[segIndex] = leading;
+
+			for (auto& id : deletedTris)
+				if (leadingPrimitives[segIndex] > 0 && id >= segment.startIndex / 3 && id < segment.startIndex / 3 + leading)
+					leadingPrimitives[segIndex]--;
+		}
+		segIndex++;
+
 		// Delete primitives
 		for (auto& id : deletedTris)
 			if (segment.numPrimitives > 0 && id >= segment.startIndex / 3
@@ -1272,12 +1290,13 @@ void BSSubIndexTriShape::notifyVerticesDelete(const std::vector<uint16_t>& vertI
 
 	// Align segments
 	size_t i = 0;
+	segIndex = 0;
 	for (auto& segment : segmentation.segments) {
 		// Align sub segments
 		size_t j = 0;
 		for (auto& subSegment : segment.subSegments) {
 			if (j == 0)
-				subSegment.startIndex = segment.startIndex;
+				subSegment.startIndex = segment.startIndex + leadingPrimitives[segIndex] * 3;
 
 			if (j + 1 >= segment.numSubSegments)
 				continue;
@@ -1286,6 +1305,8 @@ void BSSubIndexTriShape::notifyVerticesDelete(const std::vector<uint16_t>& vertI
 			nextSubSegment.startIndex = subSegment.startIndex + subSegment.numPrimitives * 3;
 			j++;
 		}
+
+		segIndex++;
 
 		if (i + 1 >= segmentation.numSegments)
 			continue;
@@ -1399,6 +1420,10 @@ void BSSubIndexTriShape::GetSegmentation(NifSegmentationInfo& inf, std::vector<i
 
 			inf.segs[i].subs[j].partID = partID++;
 			arrayIndex++;
+
+			// A partially loaded shape can have fewer data records than sub segments
+			if (static_cast<size_t>(arrayIndex) >= segmentation.subSegmentData.dataRecords.size())
+				continue;
 
 			const BSSITSSubSegmentDataRecord& rec = segmentation.subSegmentData.dataRecords[arrayIndex];
 			inf.segs[i].subs[j].userSlotID = rec.userSlotID < 30 ? 0 : rec.userSlotID;
